@@ -7,7 +7,7 @@ THEOREMS = ["SCP.C15." + t for t in "fixed_idempotent printed_reads_back readPar
     ["SCP.C13.print_read", "SCP.C07.format_shape", "SCP.C08.read_write", "SCP.C10.greedy_sum"]
 RULE = ("value classes per kind: numbers (rounding ties, 0, negatives, 10^k +- 1, up to 10^15, tiny fractions), percentages, money in every currency "
         "that has an alias or symbol the reader knows (from config.json: TRY USD SEK DKK BGN EUR; negative amounts), durations (1-7 parts of every "
-        "unit, carry boundaries, en and tr), times with every 2-4 letter zone class, dates (full and current-year form, every month, en and tr), "
+        "unit, carry boundaries, en and tr), times with every 2-4 letter zone class, times under default zones with whole-hour and fractional offsets, dates (full and current-year form, every month, en and tr), "
         "all 33 units x amounts, dates in the years 1-150 reached by subtracting years, based integers (hex / octal / binary up to 2^60, hex digits that contain 0B0 / 0B1 / 0E / 0D) x separator conventions (',' '.'), ('.' ','), ('.' ''), (',' '') "
         "x number / percentage digit configurations (0-4 digits, remove-zero and rounding flags) ; oracle: the printed form of the line, entered "
         "as a new line under the same configuration and language, prints identically; non-trivial = printed form differs from the entered text; "
@@ -169,6 +169,39 @@ def run(ctx, model_ok):
             ctx.oracle_fail({"class": cls, "what": f"'{t}' prints as '{out}', which entered again gives {out2!r} ({v2 if out2 is None else ''})", "ops": rops})
         elif len(ctx.samples) < 10 and out != t and rng.random() < 0.003:
             ctx.sample({"cfg": cfgop, "lang": l, "text": t, "printed": out})
+    # ---- clock times under a default zone other than UTC (whole-hour and fractional offsets): printed, entered again ----
+    zs = ["NPT", "GMT+5:30", "GMT-3:30", "ACST", "EST", "CET", "GMT+14", "GMT-12"]
+    tcases = []
+    for dz in (zs if not ctx.quick() else rng.sample(zs, 4)):
+        for _ in range(ctx.n(40, 600)):
+            t = f"{rng.randint(0, 23)}:{rng.randint(0, 59):02d}" + (f":{rng.randint(0, 59):02d}" if rng.random() < 0.4 else "")
+            if rng.random() < 0.3:
+                t = f"{rng.randint(1, 11)}:{rng.randint(0, 59):02d} {rng.choice(['am', 'pm'])}"
+            if rng.random() < 0.3:
+                t += " " + rng.choice(["EST", "CET", "IST", "UTC"])
+            tcases.append((dz, t))
+    o1 = []
+    for dz, t in tcases:
+        o1 += [{"op": "tz", "v": dz}, {"op": "exec", "lang": "en", "text": t}]
+    o1.append({"op": "tz", "v": "UTC"})
+    q1 = C.run_impl(o1)
+    o2, keep = [], []
+    for i, (dz, t) in enumerate(tcases):
+        v, out = first(q1[2 * i + 1])
+        if v in (None, "err") or not out:
+            ctx.count("base-not-evaluable:time-zone")
+            continue
+        o2 += [{"op": "tz", "v": dz}, {"op": "exec", "lang": "en", "text": out}]
+        keep.append((dz, t, out))
+    o2.append({"op": "tz", "v": "UTC"})
+    q2 = C.run_impl(o2)
+    for i, (dz, t, out) in enumerate(keep):
+        v2, out2 = first(q2[2 * i + 1])
+        ctx.seen(("tz", dz, t), out != t)
+        ctx.count("kind:time-under-zone")
+        if out2 != out:
+            ctx.oracle_fail({"class": "roundtrip:time-under-zone", "what": f"default zone {dz}: '{t}' prints as '{out}', which entered again gives {out2!r}",
+                             "ops": [{"op": "tz", "v": dz}, {"op": "exec", "lang": "en", "text": t}, {"op": "exec", "lang": "en", "text": out}, {"op": "tz", "v": "UTC"}]})
     if model_ok:
         co = wire.Corr(ctx, compare=("kind", "value", "out"))
         cc = []
